@@ -503,6 +503,14 @@ func (c Case) Shots() (shots []Shot, skipped []int) {
 				shots = append(shots, Shot{i, ct, acc})
 			}
 		}
+		// a client that would rather have a type the operation does not produce and settles for one it does
+		pref := jsonMime
+		for _, p := range prods {
+			if p == jsonMime {
+				pref = "application/x-foreign"
+			}
+		}
+		shots = append(shots, Shot{i, cons[0], pref + ", " + prods[0] + ";q=0.5"})
 	}
 	return shots, skipped
 }
